@@ -35,7 +35,7 @@ ANCHORS = [
     "stereomolgraph.graph2rdmol:set_bond_orders",
 ]
 REQUIRED_ANCHORS = ANCHORS
-REQUIRED = ["structural_cases", "chemical_cases", "rdkit_path_cases", "contract_evaluations", "orders_checked", "aromatic_molecules", "cumulated_molecules", "random_chain_molecules"]
+REQUIRED = ["structural_cases", "chemical_cases", "rdkit_path_cases", "contract_evaluations", "orders_checked", "aromatic_molecules", "cumulated_molecules", "random_chain_molecules", "matrix_given_as:uint8", "matrix_given_as:bool", "matrix_given_as:float64", "matrix_given_as:list"]
 CASE_TIMEOUT = 20
 SUPPORTED = [1, 5, 6, 7, 8, 9, 14, 15, 16, 17, 32, 35, 53, 78]
 STD = {1: {1}, 5: {3}, 6: {4}, 7: {3}, 8: {2}, 9: {1}, 14: {4}, 15: {3, 5}, 16: {2, 6}, 17: {1}, 35: {1}, 53: {1}}
@@ -160,21 +160,37 @@ def gen_cases(ctx):
 
 
 def check_case(ctx, case):
-    if case["kind"] == "structural":
-        return _structural(ctx, case)
-    if case["kind"] == "chemical":
-        return _chemical(ctx, case)
-    return _rdkit(ctx, case)
+    try:
+        if case["kind"] == "structural":
+            return _structural(ctx, case)
+        if case["kind"] == "chemical":
+            return _chemical(ctx, case)
+        return _rdkit(ctx, case)
+    finally:
+        for k_, v_ in _dtype_counts.items():
+            ctx.count(f"matrix_given_as:{k_}", v_)
+        _dtype_counts.clear()
+
+
+_DTYPES = ("int64", "int8", "int32", "uint8", "uint32", "bool", "float64", "list")
+_dtype_counts: dict = {}
 
 
 def _call(els, ac, **kw):
+    """the same 0/1 matrix is handed over in turn as signed / unsigned integer, boolean and float array and as a list
+    of lists (chosen from the matrix itself, replayable)"""
     import warnings
+    import zlib
 
     from stereomolgraph.algorithms import bond_orders as bo
 
+    arr = np.asarray(ac)
+    kind = _DTYPES[zlib.crc32(arr.astype("int8").tobytes() + bytes(len(els) % 251 for _ in range(1))) % len(_DTYPES)]
+    _dtype_counts[kind] = _dtype_counts.get(kind, 0) + 1
+    given = arr.astype(int).tolist() if kind == "list" else arr.astype(kind)
     with warnings.catch_warnings():
         warnings.simplefilter("ignore")
-        return bo.connectivity2bond_orders(els, ac, **kw)
+        return bo.connectivity2bond_orders(els, given, **kw)
 
 
 def _structural(ctx, case):
